@@ -253,12 +253,13 @@ def exec_linsolve(case):
     only = case.get('only')
     nontrivial_matrix = not cls['diagonal']
 
-    for shape in lm.RHS_SHAPES:
+    axes = case.get('axes', {})
+    for shape in axes.get('shape', lm.RHS_SHAPES):
         b = lm.rhs(n, shape, cplx_rhs, t)
         b2 = lm.rhs(n, shape, cplx_rhs, t, off=467)
         for solver in solver_names(cls, storage):
-            for lda in (True, False):
-                for flags in ('none', 'given'):
+            for lda in axes.get('lda', [True, False]):
+                for flags in axes.get('flags', ['none', 'given']):
                     point = {'shape': shape, 'solver': solver, 'lda': lda, 'flags': flags}
                     if not matches(only, **point):
                         continue
@@ -273,23 +274,18 @@ def exec_linsolve(case):
                     if not lda:
                         m.use_lda_solver = False
                     if doc_unsupported:
-                        # documented non-support: observe what happens, never judge
+                        # documented non-support: observe what happens on the simplest point, never judge
                         try:
                             m.response()
-                            acc.outcomes.add('real-sparse/complex-rhs: no error')
-                        except TypeError:
-                            acc.outcomes.add('real-sparse/complex-rhs: TypeError')
+                            tag = 'no error'
                         except Exception as e:  # noqa
-                            acc.outcomes.add(f'real-sparse/complex-rhs: {type(e).__name__}')
-                        acc.points += 1
-                        continue
+                            tag = type(e).__name__
+                        return {'skipped': 'documented non-support: real sparse matrix with complex right-hand side',
+                                'outcome': f'real-sparse/complex-rhs: {tag}'}
                     acc.points += 1
                     acc.keys.append(f"ls|{case['mat']}|{n}|{t}|{storage}|{case['rdt']}|{shape}|{solver}|{lda}|{flags}")
                     acc.nontrivial += nontrivial_matrix
                     run_linsolve_point(acc, m, sA, sb, A, b, b2, cls, sig, point, solver, lda, counter)
-    if doc_unsupported:
-        return {'skipped': 'documented non-support: real sparse matrix with complex right-hand side',
-                'outcome': sorted(acc.outcomes)}
     return acc.result()
 
 
@@ -478,8 +474,9 @@ def exec_soe(case):
     doc_unsupported = not np.iscomplexobj(A) and cplx
     coupled = bool(np.any(lm.sub(A, f_set, p_set) != 0) or np.any(lm.sub(A, p_set, f_set) != 0))
 
-    for given in SOE_GIVEN:
-        for order in ORDERS:
+    axes = case.get('axes', {})
+    for given in axes.get('given', SOE_GIVEN):
+        for order in axes.get('order', ORDERS):
             if order == 'desc' and len(f_set) < 2 and len(p_set) < 2:
                 continue
             f_idx = ordered(f_set, order)
@@ -487,10 +484,10 @@ def exec_soe(case):
             p_idx = ordered(p_set, order if given in ('prescribed', 'both') else 'asc')
             if given == 'prescribed':
                 f_idx = ordered(f_set, 'asc')
-            for shape in lm.RHS_SHAPES:
+            for shape in axes.get('shape', lm.RHS_SHAPES):
                 bf = lm.rhs(len(f_idx), shape, cplx, t)
                 xp = lm.rhs(len(p_idx), shape, cplx, t, off=433)
-                for kwname in SOE_KW:
+                for kwname in axes.get('kw', SOE_KW):
                     point = {'given': given, 'order': order, 'shape': shape, 'kw': kwname}
                     if not matches(only, **point):
                         continue
@@ -503,23 +500,19 @@ def exec_soe(case):
                     sbf = pym.Signal('bf', bf.copy())
                     sxp = pym.Signal('xp', xp.copy())
                     m = pym.SystemOfEquations([sA, sbf, sxp], **kw)
-                    acc.points += 1
                     if doc_unsupported:
                         try:
                             m.response()
-                            acc.outcomes.add('real-sparse/complex-data: no error')
-                        except TypeError:
-                            acc.outcomes.add('real-sparse/complex-data: TypeError')
+                            tag = 'no error'
                         except Exception as e:  # noqa
-                            acc.outcomes.add(f'real-sparse/complex-data: {type(e).__name__}')
-                        continue
+                            tag = type(e).__name__
+                        return {'skipped': 'documented non-support: real sparse matrix with complex right-hand side',
+                                'outcome': f'real-sparse/complex-data: {tag}'}
+                    acc.points += 1
                     acc.keys.append(f"soe|{case['mat']}|{n}|{t}|{storage}|{case['dt']}|{f_set}|{given}|{order}|{shape}"
                                     f"|{kwname}")
                     acc.nontrivial += coupled
                     run_soe_point(acc, m, (sA, sbf, sxp), A, f_idx, p_idx, bf, xp, symlabel, point, counter, kw)
-    if doc_unsupported:
-        return {'skipped': 'documented non-support: real sparse matrix with complex right-hand side',
-                'outcome': sorted(acc.outcomes)}
     return acc.result()
 
 
@@ -649,7 +642,8 @@ def exec_sc(case):
     coupled = bool(np.any(lm.sub(A, m_set, f_set) != 0) and np.any(lm.sub(A, f_set, m_set) != 0))
     mf = m_set + f_set
     cond_mf = lm.cond(lm.sub(A, mf, mf))
-    for order in ORDERS:
+    axes = case.get('axes', {})
+    for order in axes.get('order', ORDERS):
         if order == 'desc' and len(m_set) < 2 and len(f_set) < 2:
             continue
         m_idx, f_idx = ordered(m_set, order), ordered(f_set, order)
@@ -657,7 +651,7 @@ def exec_sc(case):
         scale_S = max(maxabs(lm.sub(A, m_idx, m_idx)),
                       maxabs(np.abs(lm.sub(A, m_idx, f_idx)) @ np.abs(np.linalg.solve(lm.sub(A, f_idx, f_idx),
                                                                                       lm.sub(A, f_idx, m_idx)))))
-        for kwname in SC_KW:
+        for kwname in axes.get('kw', SC_KW):
             point = {'order': order, 'kw': kwname}
             if not matches(only, **point):
                 continue
@@ -771,40 +765,65 @@ def family_names(n):
     return [f for f in lm.FAMILIES if n >= lm.MIN_SIZE.get(f, 1)]
 
 
-PART_FAMILIES_QUICK = ['gen', 'symind', 'spd', 'cgen', 'hpd', 'hind', 'csym', 'lower', 'upper', 'bcdec', 'bcrow', 'bccol',
-                       'gperm', 'symzd']
+def is_complex_name(name):
+    if name.startswith('p:'):
+        return name[2] in 'ch'            # kinds c, ch, hi, cs
+    return name in ('cgen', 'hpd', 'hind', 'hnegdef', 'csym', 'cupper', 'cbcdec', 'cdiag', 'hzd')
+
+
+QUICK_PART_FAMILIES = ['gen', 'symind', 'spd', 'cgen', 'hpd', 'hind', 'csym', 'lower', 'upper', 'bcdec', 'bcrow',
+                       'bccol', 'gperm', 'symzd']
+QUICK_N5_FAMILIES = ['gen', 'spd', 'cgen', 'bcrow']
+SOE_AXES_QUICK = {'given': SOE_GIVEN, 'order': ORDERS, 'shape': ['vec', 'blk'], 'kw': ['auto']}
+SOE_AXES_QUICK_KW = {'given': ['free'], 'order': ['asc'], 'shape': ['col'], 'kw': ['splu', 'flags']}
+SOE_AXES_FULL = {'given': SOE_GIVEN, 'order': ORDERS, 'shape': lm.RHS_SHAPES, 'kw': SOE_KW}
+SOE_AXES_PATTERNS = {'given': SOE_GIVEN, 'order': ORDERS, 'shape': ['vec', 'blk'], 'kw': ['auto', 'flags']}
+SC_AXES_FULL = {'order': ORDERS, 'kw': SC_KW}
+
+
+def plan(tier):
+    """the bound of a tier as data: which (matrices, sizes, storages, sub-axes) every level enumerates completely"""
+    if tier == 'quick':
+        return {
+            'inverse_sizes': SIZES_LS,
+            'linsolve_family_storage': STORAGES,
+            'linsolve_pattern_storage': ['dense', 'csc'], 'linsolve_pattern_rhs_dtype': 'dtype of the matrix',
+            'soe': [{'n': 3, 'families': 'all', 'storage': ['csc'], 'axes': [SOE_AXES_QUICK, SOE_AXES_QUICK_KW]},
+                    {'n': 4, 'families': QUICK_PART_FAMILIES, 'storage': ['csc'], 'axes': [SOE_AXES_QUICK]},
+                    {'n': 5, 'families': QUICK_N5_FAMILIES, 'storage': ['csr'], 'axes': [SOE_AXES_QUICK]}],
+            'sc': [{'n': 3, 'families': 'all', 'storage': ['csc', 'csr'], 'axes': [SC_AXES_FULL]},
+                   {'n': 4, 'families': QUICK_PART_FAMILIES, 'storage': ['csc'], 'axes': [SC_AXES_FULL]},
+                   {'n': 5, 'families': QUICK_N5_FAMILIES, 'storage': ['csr'], 'axes': [SC_AXES_FULL]}],
+            'patterns_in_partition_modules': False}
+    return {
+        'inverse_sizes': [1, 2, 3, 4, 5],
+        'linsolve_family_storage': STORAGES,
+        'linsolve_pattern_storage': STORAGES, 'linsolve_pattern_rhs_dtype': 'real and complex',
+        'soe': [{'n': n, 'families': 'all', 'storage': ['csc', 'csr'], 'axes': [SOE_AXES_FULL]} for n in SIZES_PART],
+        'sc': [{'n': n, 'families': 'all', 'storage': ['csc', 'csr'], 'axes': [SC_AXES_FULL]} for n in SIZES_PART],
+        'patterns_in_partition_modules': {'storage': ['csc'], 'soe_axes': SOE_AXES_PATTERNS, 'sc_axes': SC_AXES_FULL}}
 
 
 def bounds(tier, seed):
-    t = seed % lm.NTABLES
-    common = {'value_table': t, 'cond_max': COND_MAX, 'families': lm.FAMILIES,
-              'pattern_matrices_n3': len(lm.pattern_names()), 'rhs_shapes': ['(n)', '(n,1)', '(n,3)'],
-              'rhs_dtype': ['real', 'complex'], 'lda': [True, False], 'flags': ['none', 'given'],
-              'steps_per_point': ['response', 'repeated response', 'response after new rhs (LinSolve)']}
-    if tier == 'quick':
-        common.update({'linsolve_sizes': SIZES_LS, 'linsolve_storage': STORAGES,
-                       'linsolve_patterns': 'all 168 on dense+csc', 'inverse': 'all families n in {1,2,3,5} + patterns',
-                       'soe': 'every free/prescribed split, n in {3,4} all families; n=5 on csc for 14 families',
-                       'soe_storage': ['csc', 'csr'],
-                       'sc': 'every (main,free,rest) assignment, n in {3,4} all families on csc+csr; n=5 on csc for '
-                             '14 families'})
-    else:
-        common.update({'linsolve_sizes': SIZES_LS, 'linsolve_storage': STORAGES,
-                       'linsolve_patterns': 'all 168 on dense+csc+csr', 'inverse': 'all families n in {1,2,3,4,5} + '
-                                                                               'patterns',
-                       'soe': 'every free/prescribed split, n in {3,4,5}, all families + all 168 3x3 patterns',
-                       'soe_storage': ['csc', 'csr'],
-                       'sc': 'every (main,free,rest) assignment, n in {3,4,5}, all families + all 168 3x3 patterns'})
-    return common
+    b = {'value_table': seed % lm.NTABLES, 'cond_max': COND_MAX, 'families': lm.FAMILIES,
+         'pattern_matrices_n3': len(lm.pattern_names()), 'linsolve_sizes': SIZES_LS,
+         'linsolve_axes': {'rhs_shape': ['(n)', '(n,1)', '(n,3)'], 'rhs_dtype': ['real', 'complex'],
+                           'solver': 'auto + every explicit solver documented for the class',
+                           'use_lda_solver': [True, False], 'flags': ['none', 'given']},
+         'steps_per_point': ['response', 'repeated response', 'response after a new rhs (LinSolve only)'],
+         'partitions': {'soe': 'all 2^n-2 free/prescribed splits', 'sc': 'all 3^n-2^(n+1)+1 (main,free,rest) '
+                                                                         'assignments'}}
+    b.update(plan(tier))
+    return b
 
 
 def generate(tier, seed):
     t = seed % lm.NTABLES
-    quick = tier == 'quick'
+    pl = plan(tier)
     pats = ['p:' + nm for nm in lm.pattern_names()]
 
     yield {'__level__': 'inverse'}
-    for n in (SIZES_LS if quick else [1, 2, 3, 4, 5]):
+    for n in pl['inverse_sizes']:
         for fam in family_names(n):
             yield {'mod': 'inverse', 'mat': fam, 'n': n, 'table': t}
     for nm in pats:
@@ -813,49 +832,52 @@ def generate(tier, seed):
     yield {'__level__': 'linsolve/families'}
     for n in SIZES_LS:
         for fam in family_names(n):
-            for storage in STORAGES:
+            for storage in pl['linsolve_family_storage']:
                 for rdt in 'rc':
                     yield {'mod': 'linsolve', 'mat': fam, 'n': n, 'table': t, 'storage': storage, 'rdt': rdt}
 
     yield {'__level__': 'linsolve/patterns-n3'}
     for nm in pats:
-        for storage in (['dense', 'csc'] if quick else STORAGES):
+        for storage in pl['linsolve_pattern_storage']:
             for rdt in 'rc':
+                if tier == 'quick' and (rdt == 'c') != is_complex_name(nm):
+                    continue
                 yield {'mod': 'linsolve', 'mat': nm, 'n': 3, 'table': t, 'storage': storage, 'rdt': rdt}
 
-    def soe_cases(mats, n, storages):
+    def soe_cases(mats, n, storages, axes_list):
         for mat in mats:
             for f, p in lm.fp_partitions(n):
                 for storage in storages:
                     for dt in 'rc':
-                        yield {'mod': 'soe', 'mat': mat, 'n': n, 'table': t, 'storage': storage, 'dt': dt, 'free': f}
+                        for axes in axes_list:
+                            yield {'mod': 'soe', 'mat': mat, 'n': n, 'table': t, 'storage': storage, 'dt': dt,
+                                   'free': f, 'axes': axes}
             # observed only: dense input, python index lists
             f, p = lm.fp_partitions(n)[0]
             yield {'mod': 'soe', 'mat': mat, 'n': n, 'table': t, 'storage': 'dense', 'dt': 'r', 'free': f}
             yield {'mod': 'soe', 'mat': mat, 'n': n, 'table': t, 'storage': 'csc', 'dt': 'r', 'free': f,
                    'index_lists': True}
 
-    def sc_cases(mats, n, storages):
+    def sc_cases(mats, n, storages, axes_list):
         for mat in mats:
             for m, f, p in lm.mfp_partitions(n):
                 for storage in storages:
-                    yield {'mod': 'sc', 'mat': mat, 'n': n, 'table': t, 'storage': storage, 'main': m, 'free': f}
+                    for axes in axes_list:
+                        yield {'mod': 'sc', 'mat': mat, 'n': n, 'table': t, 'storage': storage, 'main': m, 'free': f,
+                               'axes': axes}
             m, f, p = lm.mfp_partitions(n)[0]
             yield {'mod': 'sc', 'mat': mat, 'n': n, 'table': t, 'storage': 'dense', 'main': m, 'free': f}
 
-    for n in SIZES_PART:
-        fams = family_names(n)
-        storages = ['csc', 'csr']
-        if quick and n == 5:
-            fams = [f for f in fams if f in PART_FAMILIES_QUICK]
-            storages = ['csc']
-        yield {'__level__': f'soe/n{n}'}
-        yield from soe_cases(fams, n, storages)
-        yield {'__level__': f'sc/n{n}'}
-        yield from sc_cases(fams, n, storages)
-    if quick:
-        return
-    yield {'__level__': 'soe/patterns-n3'}
-    yield from soe_cases(pats, 3, ['csc', 'csr'])
-    yield {'__level__': 'sc/patterns-n3'}
-    yield from sc_cases(pats, 3, ['csc', 'csr'])
+    for spec_soe, spec_sc in zip(pl['soe'], pl['sc']):
+        for kind, spec, fn in (('soe', spec_soe, soe_cases), ('sc', spec_sc, sc_cases)):
+            n = spec['n']
+            fams = family_names(n) if spec['families'] == 'all' else [f for f in family_names(n)
+                                                                      if f in spec['families']]
+            yield {'__level__': f'{kind}/n{n}'}
+            yield from fn(fams, n, spec['storage'], spec['axes'])
+    pp = pl['patterns_in_partition_modules']
+    if pp:
+        yield {'__level__': 'soe/patterns-n3'}
+        yield from soe_cases(pats, 3, pp['storage'], [pp['soe_axes']])
+        yield {'__level__': 'sc/patterns-n3'}
+        yield from sc_cases(pats, 3, pp['storage'], [pp['sc_axes']])
